@@ -619,4 +619,77 @@ def rule_borrowed_r4(ctx):
     ctx.borrow(rule_support, {"C16.SUPPORT": "C18.ARGS"}, only=lambda fn: "with_timeout" in fn)
 
 
-RULES = [rule_sig, rule_fs, rule_mode, rule_atomic, rule_srv, rule_state, rule_pure, rule_tree, rule_append_seek, rule_shared_tree, rule_borrowed_r4]
+def rule_index(ctx):
+    p = ctx.p
+    ctx.rule("C18.INDEX", "the in-memory backend removes / replaces the entry whose NAME matched: an index taken from `enumerate(<dir>.content)` is used only where "
+                          "`<entry>.name == <path>.name` held for it (rmdir, unlink, rename); rename takes the entry out of the source directory and puts it into the destination")
+    M = p.methods("MemoryPathIO")
+    n_ops = 0
+    for name in ("rmdir", "unlink", "rename"):
+        fn = M.get(name)
+        if fn is None:
+            continue
+        loops = [l for l in walk_no_nested(fn) if isinstance(l, ast.For) and isinstance(l.iter, ast.Call) and isinstance(l.iter.func, ast.Name) and l.iter.func.id == "enumerate"
+                 and isinstance(l.target, ast.Tuple) and len(l.target.elts) == 2 and all(isinstance(e, ast.Name) for e in l.target.elts)]
+        for l in loops:
+            idx, ent = l.target.elts[0].id, l.target.elts[1].id
+            coll = src(l.iter.args[0]) if l.iter.args else ""
+
+            def is_match(t, pol):
+                return pol and isinstance(t, ast.Compare) and len(t.ops) == 1 and isinstance(t.ops[0], ast.Eq) and {src(t.left).split(".")[0], src(t.comparators[0]).split(".")[0]} >= {ent} \
+                    and src(t.left).endswith(".name") and src(t.comparators[0]).endswith(".name")
+            # uses of the index on the same collection: inside the loop they need the match as a guard; after the loop the loop must leave only by `break` under the match
+            uses = []
+            for x in walk_no_nested(fn):
+                if isinstance(x, ast.Call) and is_method_call(x, "pop") and src(x.func.value) == coll and x.args and src(x.args[0]) == idx:
+                    uses.append(x)
+                if isinstance(x, ast.Subscript) and src(x.value) == coll and src(x.slice) == idx and isinstance(x.ctx, (ast.Store, ast.Del)):
+                    uses.append(x)
+            for u in uses:
+                n_ops += 1
+                inside = any(u is y for y in ast.walk(l))
+                if inside:
+                    ok = any(is_match(t, pol) for t, pol in all_guards(p, u, fn))
+                else:
+                    brs = [b for b in ast.walk(l) if isinstance(b, ast.Break)]
+                    ok = bool(brs) and all(any(is_match(t, pol) for t, pol in all_guards(p, b, fn)) for b in brs) and not any(isinstance(c, ast.Continue) for c in ast.walk(l))
+                ctx.ob("C18.INDEX", u, f"MemoryPathIO.{name}: `{src(u)[:40]}` acts on the entry whose name matched", ok,
+                       f"MemoryPathIO.{name}: `{src(u)[:40]}` uses the index of an entry that was not selected by `{ent}.name == <path>.name`: another entry of the directory is removed or overwritten",
+                       construct=f"index:{name}:{src(u)[:30]}")
+    rn = M.get("rename")
+    if rn is not None:
+        params = [a.arg for a in rn.args.args]
+        s_par = [n.targets[0].id for n in walk_no_nested(rn) if isinstance(n, ast.Assign) and isinstance(n.targets[0], ast.Name) and isinstance(n.value, ast.Call) and is_self_call(n.value, {"get_node"})
+                 and n.value.args and src(n.value.args[0]) == f"{params[1]}.parent"] if len(params) > 2 else []
+        d_par = [n.targets[0].id for n in walk_no_nested(rn) if isinstance(n, ast.Assign) and isinstance(n.targets[0], ast.Name) and isinstance(n.value, ast.Call) and is_self_call(n.value, {"get_node"})
+                 and n.value.args and src(n.value.args[0]) == f"{params[2]}.parent"] if len(params) > 2 else []
+        removed = any(isinstance(c, ast.Call) and c.func.attr in ("pop", "remove") and src(c.func.value) == f"{sp}.content" for sp in s_par for c in walk_no_nested(rn) if isinstance(c, ast.Call) and isinstance(c.func, ast.Attribute)) or \
+            any(isinstance(d_, ast.Delete) and any(src(t).startswith(f"{sp}.content[") for t in d_.targets) for sp in s_par for d_ in walk_no_nested(rn))
+        placed = any((isinstance(c, ast.Call) and isinstance(c.func, ast.Attribute) and c.func.attr in ("append", "insert") and src(c.func.value) == f"{dp}.content") for dp in d_par for c in walk_no_nested(rn)) and \
+            any(isinstance(x, ast.Subscript) and isinstance(x.ctx, ast.Store) and src(x.value) == f"{dp}.content" for dp in d_par for x in walk_no_nested(rn))
+        ctx.ob("C18.INDEX", rn, "rename removes the entry from the source directory", bool(removed), "MemoryPathIO.rename never takes the entry out of the source directory: the file exists under both names",
+               construct="index:rename:no removal")
+        ctx.ob("C18.INDEX", rn, "rename puts the entry into the destination directory (replacing a same-named entry, else appending)", bool(placed),
+               "MemoryPathIO.rename does not both replace a same-named destination entry and append otherwise: the renamed entry is lost or duplicated", construct="index:rename:no placement")
+        for l in [x for x in walk_no_nested(rn) if isinstance(x, ast.For) and x.orelse]:
+            for st_ in ast.walk(l):
+                if isinstance(st_, ast.Assign) and any(isinstance(t, ast.Subscript) and any(src(t.value) == f"{dp}.content" for dp in d_par) for t in st_.targets):
+                    blk = p.parent.get(st_)
+                    body = getattr(blk, "body", [])
+                    ok = st_ in body and any(isinstance(x, ast.Break) for x in body[body.index(st_) + 1:])
+                    ctx.ob("C18.INDEX", st_, "rename: after replacing the same-named destination entry the search loop is left (the else-append does not run as well)", ok,
+                           "MemoryPathIO.rename replaces the destination entry and then also reaches the loop's else: the renamed entry is in the directory twice",
+                           construct="index:rename:replace without break")
+    if n_ops < 4:
+        ctx.floor_errors.append(f"rule=C18.INDEX: {n_ops} index uses found (floor 4)")
+    # the nursery hands every new backend the state of the first one
+    call = p.method("PathIONursery", "__call__")
+    st = [n for n in walk_no_nested(call) if isinstance(n, ast.Assign) and src(n.targets[0]) == "self.state"]
+    ok = len(st) == 1 and src(st[0].value).endswith(".state") and any(isinstance(t, ast.Compare) and isinstance(t.ops[0], (ast.Is, ast.IsNot)) and src(t.left) == "self.state"
+                                                                     and isinstance(t.comparators[0], ast.Constant) and t.comparators[0].value is None
+                                                                     and (isinstance(t.ops[0], ast.Is) == bool(pol)) for t, pol in all_guards(p, st[0], call))
+    ctx.ob("C18.INDEX", call, "the nursery remembers the first instance's state (when it has none yet) and passes it on", ok,
+           "PathIONursery does not keep the first backend's state under `self.state is None`: every session gets a backend with a tree of its own", construct="nursery:state kept")
+
+
+RULES = [rule_sig, rule_fs, rule_mode, rule_atomic, rule_srv, rule_state, rule_pure, rule_tree, rule_append_seek, rule_shared_tree, rule_borrowed_r4, rule_index]
